@@ -29,5 +29,14 @@ func ZZVerifC18Names() {
 	m := map[string]string{k: "v"}
 	err2 := NewEnvironments().SetAll(m)
 	nd.Assert((err == nil) == (err2 == nil), "C18/names/setall-agrees")
+	// ... also in a batch beside good names, wherever the map walk meets it;
+	// a refused batch stores nothing
+	nd.MapOrder()
+	e3 := NewEnvironments()
+	err3 := e3.SetAll(map[string]string{"A": "1", k: "v", "C_b": "3"})
+	nd.Assert((err == nil) == (err3 == nil), "C18/names/setall-batch-agrees")
+	if err3 != nil {
+		nd.Assert(len(e3.All()) == 0, "C18/names/refused-batch-stores-nothing")
+	}
 	nd.Reach("C18/names/end")
 }
